@@ -662,3 +662,168 @@ Proof.
     intros E; apply some_eq in E; subst s'. eapply p5_sameB; [|exact HP]. sBe.
   - discriminate.
 Qed.
+
+Lemma InvLx_mk c l s s' x' :
+  InvL c s ->
+  (forall l', lp s' l' = updf (lp s) l x' l') -> l_active x' = l_active (lp s l) ->
+  nreq s' = nreq s ->
+  (forall l', countr (unf l') (nreq s) (reqs s') = countr (unf l') (nreq s) (reqs s)) ->
+  (forall r, r_st (reqs s' r) <> RFree -> r_loop (reqs s' r) < c_loops c) ->
+  (gmutex s' = gmutex s /\ gmutex s <> Some l) \/ gmutex s' = None ->
+  (l_wq x' <> [] -> l_pending x' = true) ->
+  (NoDup (l_local x') /\
+   forall r, In r (l_local x') -> r < nreq s' /\ r_loop (reqs s' r) = l /\ unf_st (r_st (reqs s' r)) = true) ->
+  InvLx c l s'.
+Proof.
+  intros [] El Ea En Ec Hlt Eg Hw Hloc. constructor.
+  - intros l'. rewrite El, En, Ec. unfold updf. destruct (Nat.eqb_spec l' l); [subst; rewrite Ea|]; apply l_act0.
+  - intros l' Hn. rewrite El, updf_other by exact Hn. apply l_loops_ok0.
+  - intros l' K. destruct Eg as [[Eg Hn] | Eg]; [|congruence].
+    rewrite Eg in K. destruct (l_gm0 l' K) as [K1 K2].
+    assert (l' <> l) as Hne by congruence.
+    split; [exact Hne | split; [exact K1|]]. rewrite El, updf_other by exact Hne. exact K2.
+  - exact Hlt.
+  - rewrite El, updf_same. exact Hw.
+  - unfold local_ok. rewrite El, updf_same. exact Hloc.
+Qed.
+
+Lemma unf_upd_same l' (f : nat -> req) r wf st :
+  unf_st (r_st (f r)) = unf_st st ->
+  unf l' (mkReq (r_loop (f r)) (r_kind (f r)) wf st) = unf l' (f r).
+Proof. intros E. unfold unf. cbn. rewrite E. reflexivity. Qed.
+
+Lemma InvL_lstep c s l aux s' :
+  InvA c s -> InvC c s -> l < c_loops c ->
+  lstep c l aux s = Some s' -> InvL c s'.
+Proof.
+  intros HA HC Hl. apply InvC_split in HC. destruct HC as [HL _].
+  pose proof HL as HL'. destruct HL' as [Hok Hact Hgm Hlt].
+  destruct (Hok l) as (K1 & K2 & K3 & K4 & K5).
+  unfold lstep. destruct (l_pc (lp s l)) as [| r | r | | |] eqn:Epc.
+  - (* LReady *)
+    assert (gmutex s <> Some l) as Hg.
+    { intros K. destruct (Hgm l K) as [_ [r0 K']]. congruence. }
+    assert (InvLx c l s) as HX.
+    { apply (InvLx_of c l s s HL HA); auto. congruence. }
+    destruct (cur_op (lp s l)) as [[k | r |]|] eqn:Eop; [| | |discriminate].
+    + destruct (gmutex s) eqn:Egm; [discriminate|]. cbn [is_free].
+      intros E; apply some_eq in E; subst s'.
+      apply InvL_advance.
+      match goal with |- InvLx c l (post c l aux ?r ?k ?y) =>
+        destruct (post_frame c l aux r k y) as (F1 & F2 & F3 & F4); apply (InvLx_ext c l y); auto end.
+      apply InvLx_submit; auto.
+    + destruct (valid_cancel s l r).
+      * destruct (gmutex s) eqn:Egm; [discriminate|]. cbn [is_free].
+        intros E; apply some_eq in E; subst s'.
+        constructor.
+        -- intros l'. cbn. unfold updf. destruct (Nat.eqb_spec l' l); [|apply Hok].
+           unfold loop_ok, cur_op. cbn.
+           split; [discriminate|]. split; [intros _; right; left; eauto|].
+           split; [intros [K | [K | K]]; discriminate|]. split; [discriminate|].
+           intros K. left. destruct (K5 K); [assumption | discriminate].
+        -- intros l'. cbn. unfold updf. destruct (Nat.eqb_spec l' l); [subst; cbn|]; apply Hact.
+        -- intros l' K. cbn in K. inversion K; subst l'. split; [exact Hl|]. exists r. cbn. rewrite updf_same. reflexivity.
+        -- exact Hlt.
+      * intros E; apply some_eq in E; subst s'. apply InvL_advance.
+        apply (InvLx_ext c l s); auto.
+    + destruct (l_cb (lp s l)) eqn:Ecb.
+      * assert (l_in_done (lp s l) = false) as Hd.
+        { unfold cur_op in Eop. rewrite Ecb in Eop. destruct (l_in_done (lp s l)); [discriminate | reflexivity]. }
+        destruct (l_active (lp s l) =? 0); [| destruct (l_pending (lp s l))];
+          intros E; apply some_eq in E; subst s'.
+        -- apply InvL_advance. apply (InvLx_ext c l s); auto.
+        -- apply InvL_set_loop.
+           ++ apply (InvLx_ext c l s); auto.
+           ++ unfold loop_ok, cur_op. cbn.
+              split; [discriminate|]. split; [rewrite Hd; discriminate|].
+              split; [intros _; split; assumption|]. split; [discriminate|].
+              intros _. right. reflexivity.
+           ++ reflexivity.
+        -- apply InvL_advance. apply (InvLx_ext c l s); auto.
+      * intros E; apply some_eq in E; subst s'. apply InvL_advance.
+        apply (InvLx_ext c l s); auto.
+  - (* LCancel2 r *)
+    destruct (a_cancel2 c s HA l r Epc) as [Hrl Hrst].
+    assert (unf_st (r_st (reqs s r)) = true) as Hunf.
+    { destruct Hrst as [-> | [[w ->] | [-> | ->]]]; reflexivity. }
+    match goal with |- context [if ?b then _ else _] => destruct b eqn:Ec end;
+      intros E; apply some_eq in E; subst s'.
+    + (* unlinked: Limbo, pc LCancel3 *)
+      set (X2 := lset_local (lset_wq (lp s l) (rem r (l_wq (lp s l)))) (rem r (l_local (lp s l)))).
+      set (Q := mkReq (r_loop (reqs s r)) (r_kind (reqs s r)) WCancelled Limbo).
+      match goal with |- InvL c ?y => set (sf := y) end.
+      assert (forall l', lp sf l' = updf (lp s) l (lset_pc X2 (LCancel3 r)) l') as El.
+      { intros l'. unfold sf. cbn. unfold updf. destruct (Nat.eqb_spec l' l); [|reflexivity].
+        subst l'. rewrite Nat.eqb_refl. reflexivity. }
+      assert (forall r0, reqs sf r0 = updf (reqs s) r Q r0) as Er.
+      { intros r0. unfold sf. cbn. unfold updf. destruct (Nat.eqb_spec r0 r); [|reflexivity].
+        subst r0. rewrite Nat.eqb_refl. reflexivity. }
+      constructor.
+      * intros l'. rewrite El. unfold updf. destruct (Nat.eqb_spec l' l); [|apply Hok].
+        unfold loop_ok, cur_op. cbn.
+        split; [discriminate|]. split; [intros _; right; right; eauto|].
+        split; [intros [K | [K | K]]; discriminate|]. split; [discriminate|].
+        intros K. left. assert (l_wq (lp s l) <> []) as K'.
+        { intros E0. rewrite E0 in K. apply K. reflexivity. }
+        destruct (K5 K'); [assumption | discriminate].
+      * intros l'. rewrite El. change (nreq sf) with (nreq s).
+        rewrite (countr_ext _ _ _ _ Er). rewrite countr_same.
+        -- unfold updf. destruct (Nat.eqb_spec l' l); [subst; cbn|]; apply Hact.
+        -- symmetry. apply unf_upd_same. rewrite Hunf. reflexivity.
+      * intros l' K. unfold sf in K. cbn in K. discriminate.
+      * intros r0. rewrite Er. unfold updf. destruct (Nat.eqb_spec r0 r); [|apply Hlt].
+        subst r0. cbn. intros _. apply Hlt. intros E0. rewrite E0 in Hunf. discriminate.
+    + (* UV_EBUSY *)
+      apply InvL_advance.
+      match goal with |- InvLx c l (set_loop ?y l ?x) => apply (InvLx_keep c l y x) end; try reflexivity.
+      apply (InvLx_of c l s _ HL HA); auto; try reflexivity. congruence.
+  - (* LCancel3 r *)
+    destruct (a_cancel3 c s HA l r Epc) as [Hrl Hrst].
+    intros E; apply some_eq in E; subst s'.
+    apply InvL_advance.
+    set (X2 := lset_pc (lset_pending (lset_wq (lp s l) (l_wq (lp s l) ++ [r])) true) LReady).
+    set (Q := mkReq (r_loop (reqs s r)) (r_kind (reqs s r)) (r_work (reqs s r)) Cancelled).
+    assert (gmutex s <> Some l) as Hg.
+    { intros K. destruct (Hgm l K) as [_ [r0 K']]. congruence. }
+    match goal with |- InvLx c l ?y => set (sf := y) end.
+    assert (forall r0, reqs sf r0 = updf (reqs s) r Q r0) as Er by (intros r0; reflexivity).
+    apply (InvLx_mk c l s sf X2 HL); auto.
+    + intros l'. rewrite (countr_ext _ _ _ _ Er). apply countr_same.
+      symmetry. apply unf_upd_same. rewrite Hrst. reflexivity.
+    + intros r0. rewrite Er. unfold updf. destruct (Nat.eqb_spec r0 r); [|apply Hlt].
+      subst r0. cbn. intros _. apply Hlt. rewrite Hrst. discriminate.
+    + split.
+      * eapply NoDup_app_r. apply (a_nodup_l c s HA).
+      * intros r0 Hr0.
+        destruct (loopq_member_ok c s l r0 HA) as (M1 & M2 & M3); [apply in_or_app; right; exact Hr0|].
+        change (nreq sf) with (nreq s). rewrite Er. unfold updf.
+        destruct (Nat.eqb_spec r0 r); [subst r0; cbn; auto | auto].
+  - (* LWorkDone *)
+    destruct K3 as [Hd Hcb]; [left; reflexivity|].
+    intros E; apply some_eq in E; subst s'.
+    set (X2 := lset_pc (lset_in_done (lset_local (lset_wq (lp s l) []) (l_wq (lp s l))) true) LReady).
+    assert (gmutex s <> Some l) as Hg.
+    { intros K. destruct (Hgm l K) as [_ [r0 K']]. congruence. }
+    apply InvL_deliver.
+    + match goal with |- InvLx c l ?y => apply (InvLx_mk c l s y X2 HL) end; auto.
+      cbn. split.
+      * eapply NoDup_app_l. apply (a_nodup_l c s HA).
+      * intros r0 Hr0. apply (loopq_member_ok c s l r0 HA). apply in_or_app. left. exact Hr0.
+    + cbn. rewrite updf_same. reflexivity.
+    + cbn. rewrite updf_same. cbn. exact Hcb.
+    + cbn. rewrite updf_same. reflexivity.
+  - (* LDrain *)
+    destruct K3 as [Hd Hcb]; [right; left; reflexivity|].
+    assert (gmutex s <> Some l) as Hg.
+    { intros K. destruct (Hgm l K) as [_ [r0 K']]. congruence. }
+    destruct (l_pending (lp s l)); [|discriminate].
+    intros E; apply some_eq in E; subst s'.
+    apply InvL_set_loop.
+    + apply (InvLx_ext c l s); auto. apply (InvLx_of c l s s HL HA); auto. congruence.
+    + unfold loop_ok, cur_op. cbn.
+      split; [discriminate|]. split; [rewrite Hd; discriminate|].
+      split; [intros _; split; assumption|]. split; [discriminate|].
+      intros _. right. reflexivity.
+    + reflexivity.
+  - discriminate.
+Qed.
